@@ -970,8 +970,10 @@ def _tmpdir():
     if _TMP is None or not os.path.isdir(_TMP):
         _TMP = tempfile.mkdtemp(prefix="c19-")
         import atexit
+        from multiprocessing import util as mp_util
 
-        atexit.register(shutil.rmtree, _TMP, True)
+        atexit.register(shutil.rmtree, _TMP, True)  # serial runs and replay
+        mp_util.Finalize(None, shutil.rmtree, args=(_TMP, True), exitpriority=1)  # pool workers skip atexit
     return _TMP
 
 
